@@ -223,5 +223,118 @@ example : K.okScript [.enq 0, .drain 0] = true ∧ ¬ stuck demoInit := by
 example : (runSched (init [[.enq 0]] 1) [.app 0, .app 0]).map (fun s => (s.owed, s.k.evt, s.k.r,
     decide (∃ a ∈ s.k.apps, K.willSignal a))) = some (true, false, .idle, false) := by decide
 
+/-! ## any commands, GPU port (`C12.E.G`)
+With kernel commands the component cannot be read off the protocol state and a queue can be
+non-empty while the driver RIGHTLY sleeps (it waits for the GPU), so `K`'s invariant is not the right
+statement; `W`'s is, and its hypothesis `owed` is still a theorem about the protocol state. -/
+namespace G
+
+/-- **Refinement to `W`, any commands.** A step of the composed model with the component in the
+    state — an application thread (any command kind at `Enqueue`), `runAsync`, the engine goroutine
+    (tick event = ALL transcribed stages of `Driver.Tick` on the real component state), the connection
+    delivering a `LaunchKernelRsp` or retrieving a request — is invisible to `W` or exactly ONE event
+    of `W.step`. -/
+theorem refines_W (kind : Nat → W.Drv.Cmd) (inCap outCap : Nat) {s s' : St} {t : Th}
+    (h : step kind inCap outCap s t = some s') :
+    sysOf s' = sysOf s ∨ ∃ ev, sysOf s' = W.step inCap outCap (W.Drv.stages outCap) (sysOf s) ev :=
+  step_w kind inCap outCap h
+
+theorem run_refines_W (kind : Nat → W.Drv.Cmd) (inCap outCap : Nat) (ts : List Th) : ∀ (s s' : St),
+    runSched kind inCap outCap s ts = some s' →
+    ∃ evs, sysOf s' = W.run inCap outCap (W.Drv.stages outCap) (sysOf s) evs := by
+  induction ts with
+  | nil => intro s s' h; simp [runSched] at h; subst h; exact ⟨[], rfl⟩
+  | cons t ts ih =>
+    intro s s' h
+    simp only [runSched] at h
+    cases hs : step kind inCap outCap s t with
+    | none => simp [hs] at h
+    | some s1 =>
+      simp only [hs] at h
+      obtain ⟨e2, h2⟩ := ih s1 s' h
+      rcases refines_W kind inCap outCap hs with h1 | ⟨ev, h1⟩
+      · exact ⟨e2, by rw [h2, h1]⟩
+      · exact ⟨ev :: e2, by rw [h2, h1]; simp [W.run]⟩
+
+/-- **The link, any commands.** Whatever the commands are and whatever the GPU side does: `owed`
+    implies that some application thread still owes its `enqueueSignal` or `runAsync` is about to
+    call `TickLater` (all scripts ending with a drain, any number of threads and queues). -/
+theorem owed_implies_signal_pending {kind : Nat → W.Drv.Cmd} {inCap outCap : Nat} {s : St}
+    (h : Reach kind inCap outCap s) (ho : s.owed = true) :
+    (∃ a ∈ s.k.apps, K.willSignal a) ∨ s.k.r = .tick :=
+  (ginv_reach h).link ho
+
+/-- **Never asleep with work, any commands, no hypothesis on `owed`.** Noop and kernel commands with
+    any number of requests, responses delivered in any order and grouping, requests retrieved at any
+    time, any interleaving with the application threads and `runAsync`: if a response waits in the GPU
+    port, or a command is startable, or a request is sendable, then the tick event is scheduled, or a
+    thread still owes its signal, or `runAsync` is about to schedule the tick. -/
+theorem driver_never_asleep_with_work {kind : Nat → W.Drv.Cmd} {inCap outCap : Nat} {s : St}
+    (h : Reach kind inCap outCap s) (hw : W.Drv.work outCap s.core) :
+    s.k.evt = true ∨ (∃ a ∈ s.k.apps, K.willSignal a) ∨ s.k.r = .tick := by
+  rcases winv_reach h hw with ha | ho
+  · exact Or.inl ha
+  · exact Or.inr (owed_implies_signal_pending h ho)
+
+/-- **`DrainCommandQueue` tests the component's real queue.** The id queues the protocol part reads
+    (`NumCommand() == 0`) have, queue by queue, exactly as many entries as the component's command
+    queues — a kernel command stays queued until the tick that handles its last response. -/
+theorem queues_mirrored {kind : Nat → W.Drv.Cmd} {inCap outCap : Nat} {s : St}
+    (h : Reach kind inCap outCap s) : Sync s := sync_reach h
+
+/-- **Drain safety, any commands.** When a `DrainCommandQueue(q)` call returns (the step that
+    increments the thread's `returned`), the COMPONENT's queue `q` is empty: every command enqueued
+    on it — kernels included — has been completed by `Driver.Tick` (a kernel is dequeued only by the
+    tick that handles its last `LaunchKernelRsp`). -/
+theorem drain_returns_only_when_empty {kind : Nat → W.Drv.Cmd} {inCap outCap : Nat} {s s' : St}
+    (h : Reach kind inCap outCap s) (j : Nat) (a a' : K.App)
+    (hs : step kind inCap outCap s (.app j) = some s') (ha : s.k.apps[j]? = some a)
+    (ha' : s'.k.apps[j]? = some a') (hret : a'.returned = a.returned + 1) :
+    ∀ w, s.core.d.qs[a.q]? = some w → w.cmds = [] := by
+  intro w hw
+  simp only [step, ha] at hs
+  cases hk : K.step s.k (.app j) with
+  | none => simp [hk] at hs
+  | some k1 =>
+    simp [hk] at hs
+    have hk' : K.stepApp s.k j a = some k1 := by simpa [K.step, ha] using hk
+    have hk1 : s'.k = k1 := by
+      by_cases hen : isEnq a = true
+      · simp only [hen, if_true] at hs; subst hs; rfl
+      · simp only [hen] at hs; subst hs; rfl
+    rw [hk1] at ha'
+    exact sync_empty s (sync_reach h) a.q (stepApp_returned s.k k1 j a a' ha hk' ha' hret) w hw
+
+/-! non-vacuity: one thread, `Enqueue(kernel with one request); DrainCommandQueue` -/
+def kern1 : Nat → W.Drv.Cmd := fun _ => .kern 1
+def demoG : St := init [[.enq 0, .drain 0]] 1
+/-- append · NotifyAll · Subscribe · signal · TickLater · engine started · `Run` · tick (start) · tick (send) · tick (nothing) -/
+def schedG : List Th := [.app 0, .app 0, .app 0, .app 0, .async, .async, .eng, .eng, .eng, .eng]
+
+example : Reach kern1 4 4 demoG := Reach.init _ _ (by decide)
+-- after the append: owed, work, asleep, the thread `willSignal`
+example : (runSched kern1 4 4 demoG [.app 0]).map (fun (s : St) => (s.owed, s.k.evt, s.core.d.qs,
+    decide (∃ a ∈ s.k.apps, K.willSignal a), decide (∃ q ∈ s.core.d.qs, W.Drv.startable q))) =
+    some (true, false, [{ cmds := [.kern 1] }], true, true) := by decide
+-- the kernel is running, its request is in the port, the driver RIGHTLY sleeps with a non-empty queue
+example : (runSched kern1 4 4 demoG schedG).map (fun (s : St) => (s.owed, s.k.evt, s.core.d.qs, s.core.outb.length)) =
+    some (false, false, [{ cmds := [.kern 1], running := true, left := 1 }], 1) := by decide
+example : (runSched kern1 4 4 demoG schedG).map (fun (s : St) => (K.cmdsOf s.k 0, decide (Sync s))) =
+    some ([1], true) := by decide
+-- the thread blocks in `Wait`; the request is retrieved, the response delivered into the empty port: awake
+example : (runSched kern1 4 4 demoG (schedG ++ [.app 0, .app 0, .retrieve, .deliver ⟨0⟩])).map
+    (fun (s : St) => (s.k.evt, s.core.inb, (s.k.apps.map (·.pc)))) = some (true, [⟨0⟩], [.waiting]) := by decide
+-- the tick handles the response: command dequeued in both queues, the waiter is notified, the drain returns
+example : (runSched kern1 4 4 demoG (schedG ++ [.app 0, .app 0, .retrieve, .deliver ⟨0⟩, .eng, .eng, .app 0])).map
+    (fun (s : St) => (s.k.evt, s.core.d.qs, K.cmdsOf s.k 0, decide (K.finished s.k), decide (Sync s))) =
+    some (false, [{}], [], true, true) := by decide
+-- … and that last step is the one `drain_returns_only_when_empty` speaks about: `returned` 0 ↦ 1
+example : (runSched kern1 4 4 demoG (schedG ++ [.app 0, .app 0, .retrieve, .deliver ⟨0⟩, .eng, .eng])).map
+    (fun (s : St) => s.k.apps.map (·.returned)) = some [0] ∧
+    (runSched kern1 4 4 demoG (schedG ++ [.app 0, .app 0, .retrieve, .deliver ⟨0⟩, .eng, .eng, .app 0])).map
+    (fun (s : St) => s.k.apps.map (·.returned)) = some [1] := by decide
+
+end G
+
 end E
 end C12
